@@ -234,6 +234,29 @@ VS_BIN_GG("lminus", lminus, T, 0)
 VS_BIN_GG("minus", minus, T, 0)
 VS_BIN_GG("between", between, G, 0)
 
+// ---- rminus / lminus with the first operand written as a product (C05): every pair (A, B) is (B*Z, B) resp.
+// (Z*B, B) for exactly one Z, so the property "for all A, B" is the property "for all B, Z"; the relative element
+// Z - whose angle selects log's small-angle branch - is then an input variable of its own.  Jcy / Jcz are
+// compose()'s Jacobians (under contract in C05/compose), used by the chain rule for the B-derivative.
+SCENARIO("rminus_rel") {
+  G Y = sym_group<G>("y"), Z = sym_group<G>("z");
+  Jac Jcy = poison_mat<DoF, DoF>("Jcy"), Jcz = poison_mat<DoF, DoF>("Jcz");
+  G X = Y.compose(Z, Jcy, Jcz);
+  Jac Ja = poison_mat<DoF, DoF>("Ja"), Jb = poison_mat<DoF, DoF>("Jb");
+  T r = X.rminus(Y, Ja, Jb);
+  out("Y", Y.coeffs()); out("Z", Z.coeffs()); out("X", X.coeffs());
+  out("out", r.coeffs()); out("Ja", Ja); out("Jb", Jb); out("Jcy", Jcy); out("Jcz", Jcz);
+}
+SCENARIO("lminus_rel") {
+  G Y = sym_group<G>("y"), Z = sym_group<G>("z");
+  Jac Jcy = poison_mat<DoF, DoF>("Jcy"), Jcz = poison_mat<DoF, DoF>("Jcz");
+  G X = Z.compose(Y, Jcz, Jcy);
+  Jac Ja = poison_mat<DoF, DoF>("Ja"), Jb = poison_mat<DoF, DoF>("Jb");
+  T r = X.lminus(Y, Ja, Jb);
+  out("Y", Y.coeffs()); out("Z", Z.coeffs()); out("X", X.coeffs());
+  out("out", r.coeffs()); out("Ja", Ja); out("Jb", Jb); out("Jcy", Jcy); out("Jcz", Jcz);
+}
+
 // ---- tangent plus / minus (C05)
 SCENARIO("tplus") {
   T a = sym_tangent<T>("a"), b = sym_tangent<T>("b");
